@@ -106,11 +106,16 @@ pub struct FaultyWriter {
     pub failed: u64,
     /// index range classification: op index -> kind, recorded for evidence
     pub last_failed_op: Option<&'static str>,
+    /// also count (and fail) read calls made through `SharedFaulty`
+    pub count_reads: bool,
 }
 
 impl FaultyWriter {
     pub fn new(inner: RecWriter, fail_at: Option<u64>, kind: FaultKind, short: Option<usize>) -> Self {
-        FaultyWriter { inner, count: 0, fail_at, kind, short, failed: 0, last_failed_op: None }
+        FaultyWriter { inner, count: 0, fail_at, kind, short, failed: 0, last_failed_op: None, count_reads: false }
+    }
+    pub fn tick_read(&mut self) -> io::Result<()> {
+        self.tick("read")
     }
     fn tick(&mut self, what: &'static str) -> io::Result<()> {
         let i = self.count;
@@ -360,5 +365,49 @@ impl Write for SharedWriter {
 impl Seek for SharedWriter {
     fn seek(&mut self, s: SeekFrom) -> io::Result<u64> {
         self.0.borrow_mut().seek(s)
+    }
+}
+
+/// Cloneable handle to a `FaultyWriter`.
+#[derive(Clone, Debug)]
+pub struct SharedFaulty(pub std::rc::Rc<std::cell::RefCell<FaultyWriter>>);
+
+impl SharedFaulty {
+    pub fn new(w: FaultyWriter) -> Self {
+        SharedFaulty(std::rc::Rc::new(std::cell::RefCell::new(w)))
+    }
+    pub fn data(&self) -> Vec<u8> {
+        self.0.borrow().inner.data.clone()
+    }
+    pub fn count(&self) -> u64 {
+        self.0.borrow().count
+    }
+    pub fn failed(&self) -> u64 {
+        self.0.borrow().failed
+    }
+    pub fn last_failed_op(&self) -> Option<&'static str> {
+        self.0.borrow().last_failed_op
+    }
+}
+impl Write for SharedFaulty {
+    fn write(&mut self, buf: &[u8]) -> io::Result<usize> {
+        self.0.borrow_mut().write(buf)
+    }
+    fn flush(&mut self) -> io::Result<()> {
+        self.0.borrow_mut().flush()
+    }
+}
+impl Seek for SharedFaulty {
+    fn seek(&mut self, s: SeekFrom) -> io::Result<u64> {
+        self.0.borrow_mut().seek(s)
+    }
+}
+impl Read for SharedFaulty {
+    fn read(&mut self, buf: &mut [u8]) -> io::Result<usize> {
+        let mut w = self.0.borrow_mut();
+        if w.count_reads {
+            w.tick_read()?;
+        }
+        w.inner.read(buf)
     }
 }
